@@ -33,7 +33,7 @@ TEXT = {
 }
 
 NOTE = {
- "default": "Trusted: Lean kernel; the Props statements; the F64 model of IEEE-754 (validated against Go on every run); the hand-written model being the code only as far as the correspondence streams explore (generator coverage is reported in the evidence); the harness/overlay build, verifhook, driver, factgen and vlib/check.py; Go toolchain. Modelled, not verified: the OS, files, os/exec, bbolt, encoding/json, viper, regexp, oklog/run, os/signal, sync.Mutex (each an explicit parameter with its stated contract, see DESIGN.md 2.8).",
+ "default": "Trusted: Lean kernel; the Props statements; the F64 model of IEEE-754 (validated against Go on every run); the hand-written model being the code only as far as the correspondence streams explore (generator coverage is reported in the evidence); the harness/overlay build, verifhook, driver, factgen, the Go->Lean translators go/transgen* (with Model/GoSem.lean as the meaning of the Go constructs they emit) and vlib/check.py; Go toolchain. Modelled, not verified: the OS, files, os/exec, bbolt, encoding/json, viper, regexp, oklog/run, os/signal, sync.Mutex (each an explicit parameter with its stated contract, see DESIGN.md 2.8).",
 }
 
 
@@ -58,7 +58,7 @@ def main():
             "level_claimed": {"category": "proof", "text": TEXT.get(pid, "") + (" PARTIAL: " + partial if partial else ""),
                               "design_ref": f"DESIGN.md section 3 ({pid})"},
             "level_note": NOTE["default"] + (" Assumptions: " + "; ".join(prop.assumptions) if prop.assumptions else ""),
-            "technique": "machine-checked proof in Lean 4 over an executable model + model/implementation correspondence (differential, line protocol) + regenerated source facts",
+            "technique": "machine-checked proof in Lean 4 over an executable model + model/implementation correspondence (differential, line protocol) + definitions regenerated from the Go source on every run (Go->Lean translation, tie theorems generated = model) + regenerated source facts",
         })
     m = {
         "version": 1,
